@@ -132,6 +132,8 @@ _op = st.one_of(
     st.tuples(st.just("secure_in"), st.sampled_from(KEYED), st.sampled_from(["write", "response"]), _val, st.booleans()),
     st.tuples(st.just("secure_in_unkeyed"), st.sampled_from(UNKEYED), _val),
     st.tuples(st.just("out"), st.sampled_from(KEYED + UNKEYED), st.sampled_from(["write", "response", "read"]), _val),
+    # outgoing group telegram with the other group transport service (T_Data_Tag_Group): the key is per destination address
+    st.tuples(st.just("out_tag"), st.sampled_from(KEYED + UNKEYED), st.sampled_from(["write", "response", "read"]), _val),
     st.tuples(st.just("device_out"), st.sampled_from(KEYED + UNKEYED), _val),
 )
 streams = st.lists(_op, min_size=1, max_size=14).map(lambda ops: [list(o) for o in ops])
@@ -151,6 +153,7 @@ def run_stream(ctx, ops) -> set:
     from xknx.secure.data_secure import DataSecure
     from xknx.telegram import GroupAddress, IndividualAddress, Telegram
     from xknx.telegram.apci import SecureAPDU
+    from xknx.telegram.tpci import TDataTagGroup
 
     from vk.dsec import AUTH, ENC, plain_frame, secure_frame
     from vk.vloop import BudgetExceeded, Deadlock, run_case
@@ -196,6 +199,8 @@ def run_stream(ctx, ops) -> set:
                     h.inject_cemi(secure_frame(KEYS[0x0801], SENDER, op[1], seq, _payload("write", op[2]).to_knx()))
                 elif kind == "out":
                     xknx.telegrams.put_nowait(Telegram(destination_address=GroupAddress(op[1]), payload=_payload(op[2], op[3])))
+                elif kind == "out_tag":
+                    xknx.telegrams.put_nowait(Telegram(destination_address=GroupAddress(op[1]), payload=_payload(op[2], op[3]), tpci=TDataTagGroup()))
                 else:
                     await devs[op[1]].set(op[2])
             except Exception as e:  # noqa: BLE001
@@ -257,9 +262,9 @@ def run_stream(ctx, ops) -> set:
                 continue
             payload = sent[0]["cemi"].data.payload
             if ga in KEYS:
-                classes.add("outgoing-to-keyed")
+                classes.add("outgoing-to-keyed" + (":tag-group" if kind == "out_tag" else ""))
                 if not isinstance(payload, SecureAPDU):
-                    ctx.fail("C18:outgoing-to-keyed-plain", ops, f"{where}: left the interface as {payload!r}")
+                    ctx.fail("C18:outgoing-to-keyed-plain" + (":tag-group" if kind == "out_tag" else ""), ops, f"{where}: left the interface as {payload!r}")
             else:
                 classes.add("outgoing-to-unkeyed")
                 if isinstance(payload, SecureAPDU):
@@ -269,7 +274,7 @@ def run_stream(ctx, ops) -> set:
 
 def _stream_oracle(ctx, ops) -> None:
     classes = run_stream(ctx, ops)
-    nt = bool(classes & {"plain-to-keyed", "outgoing-to-keyed"})
+    nt = bool(classes & {"plain-to-keyed", "outgoing-to-keyed", "outgoing-to-keyed:tag-group"})
     ctx.case(repr(ops), nontrivial=nt, cls=sorted(classes) or ["none"], sample=ops if nt and len(ops) <= 4 else None)
 
 
